@@ -77,7 +77,10 @@ impl UnitSet {
     }
 
     pub(crate) fn valid_in_css(&self) -> bool {
-        self.units.len() < 2 && self.css_dimension().valid_in_css()
+        // A single unit must not be inverted or raised to a power,
+        // even if it is dimensionless like `%`.
+        matches!(self.units.as_slice(), [] | [(_, 1)])
+            && self.css_dimension().valid_in_css()
     }
 
     /// Get a scaling factor to convert this unit to another unit.
